@@ -61,6 +61,9 @@ type Ctx struct {
 	wantControls     []string
 	termMemo         map[ssa.Value]string
 	termBusy         map[ssa.Value]bool
+	inlineExtractors map[*ssa.Call]*extractor
+	termInline       bool
+	termSubst        []map[*ssa.Parameter]string
 	rangeCheckerMemo map[*ssa.Function]bool
 	tableCovered     map[string]string // function name -> key of the finite table that walked it and passed
 	eff              *effects
